@@ -162,6 +162,7 @@ type Exec struct {
 	inInit        int
 	lastFn        *ssa.Function
 	stoppedByPeer bool
+	allObjs       []*Object
 	okSamples     []OKSample
 }
 
@@ -1262,6 +1263,11 @@ func (e *Exec) step(st *State, fr *Frame, in ssa.Instruction, res *[]Outcome) ([
 	if r, ok := in.(*ssa.Range); ok {
 		return e.rangeAlts(st, fr, r)
 	}
+	if u, ok := in.(*ssa.UnOp); ok && u.Op == token.MUL {
+		if alts, handled := e.loadFork(st, fr, u); handled {
+			return alts, len(alts) > 0
+		}
+	}
 	if l, ok := in.(*ssa.Lookup); ok {
 		if alts, handled := e.lookupFork(st, fr, l); handled {
 			return alts, len(alts) > 0
@@ -2127,4 +2133,63 @@ func (e *Exec) note(msg string) {
 		}
 	}
 	e.notes = append(e.notes, msg)
+}
+
+// loadFork handles *p where p carries a symbolic index into an array whose elements cannot be merged
+// by ite (they hold slices, pointers, ...): the index is made concrete by forking over its feasible values.
+func (e *Exec) loadFork(st *State, fr *Frame, x *ssa.UnOp) (alts []contAlt, handled bool) {
+	p, ok := e.eval(st, fr, x.X).(*PtrV)
+	if !ok || isNilPtr(p) {
+		return nil, false
+	}
+	sym := -1
+	for i, pe := range p.Path {
+		if pe.Field < 0 && !pe.Idx.IsConst() {
+			sym = i
+			break
+		}
+	}
+	if sym < 0 {
+		return nil, false
+	}
+	// try the ite-merge first
+	var val Value
+	failed := false
+	func() {
+		defer func() {
+			if r := recover(); r != nil {
+				if u, ok := r.(unsupportedErr); ok && strings.Contains(u.msg, "non-mergeable") {
+					failed = true
+					return
+				}
+				panic(r)
+			}
+		}()
+		val = e.load(st, p)
+	}()
+	if !failed {
+		e.setReg(fr, x, val)
+		return nil, false // handled inline: signal "not handled" but register is set; step1 will redo the same load harmlessly
+	}
+	for _, o := range e.concretize(st, p.Path[sym].Idx, 256) {
+		np := &PtrV{Obj: p.Obj, Path: append([]PathElem(nil), p.Path...)}
+		np.Path[sym].Idx = o.val.(*Term)
+		f := fr.clone()
+		// further symbolic indices on the same pointer are handled by the recursive attempt below
+		var v Value
+		func() {
+			defer func() {
+				if r := recover(); r != nil {
+					if _, ok := r.(unsupportedErr); ok {
+						panic(unsupported("load through a pointer with several non-mergeable symbolic indices"))
+					}
+					panic(r)
+				}
+			}()
+			v = e.load(o.st, np)
+		}()
+		e.setReg(f, x, v)
+		alts = append(alts, contAlt{o.st, f})
+	}
+	return alts, true
 }
